@@ -1043,8 +1043,11 @@ inline bool Transport::setReadMode(SessionId sid, ReadMode mode)
       oldMode = it->second;
     }
 
-    // If NOT switching from Sync to Async, update mode directly
-    if (!(oldMode == ReadMode::Sync && mode == ReadMode::Async))
+    // If NOT switching to Async from a mode that may have left bytes in the sync
+    // buffer, update mode directly. Disabled -> Async flushes too: bytes buffered
+    // during an earlier Sync phase (Sync -> Disabled keeps them) would otherwise
+    // stay behind and surface out of order, after bytes that arrived later.
+    if (!(oldMode != ReadMode::Async && mode == ReadMode::Async))
     {
       _impl->readModes[sid] = mode;
 
